@@ -42,6 +42,22 @@ pub fn is_rne_f32(mant: u64, exp: i32, num: u128, den: u128) -> bool {
 
 pub fn pow10(n: u32) -> u128 { let mut p = 1u128; let mut i = 0; while i < n { p *= 10; i += 1; } p }
 
+/// fixed decimal exponent q (the table row and the reference power of ten are constants), every mantissa below 2^16
+/// (a product-equivalence problem: larger mantissa ranges are out of reach of the SAT back end, see lemire_band_f32_rne)
+macro_rules! lemire_f32_rne_q {
+    ($q:expr) => {{
+        let w: u64 = any();
+        assume(w > 0 && w < (1 << 16));
+        let q: i64 = $q;
+        let fp = compute_float::<f32>(q, w, false);
+        if fp.exp >= 0 {
+            let (num, den) = if q >= 0 { (w as u128 * pow10(q as u32), 1u128) } else { (w as u128, pow10((-q) as u32)) };
+            vcheck!(is_rne_f32(fp.mant, fp.exp, num, den), "non-error result == round-to-nearest-even(w * 10^q)");
+        }
+        cover(fp.exp > 0);
+    }};
+}
+
 crate::harnesses! {
     /// compute_float::<f64>: for every (q, w, lossy) the result is a valid biased (mant, exp) or an error-marked
     /// normalised estimate; never an error marker when lossy; zero/inf outside the decimal range.
@@ -110,6 +126,72 @@ crate::harnesses! {
         if c.exp >= 0 { vcheck!(c == d, "f32: lossy result == exact result when the exact path is conclusive"); }
         cover(c.exp < 0);
     }
+
+    /// compute_float::<f32>(q = -17, w): a non-error result IS the round-to-nearest-even of w * 10^q, every w < 2^16
+    /// (q = -17 and 10 are the ends of the round-to-even window of f32, 11 is just outside).
+    /// @prop C01 C19
+    /// @feat default radix_format
+    /// @bound decimal exponent q = -17, mantissa w < 2^16, f32
+    /// @fn lexical-parse-float::lemire::compute_float[f32]
+    /// @fn lexical-parse-float::lemire::compute_product_approx
+    /// @timeout 1200
+    #[cfg_attr(kani, kani::unwind(20))]
+    fn lemire_f32_rne_q_m17() { lemire_f32_rne_q!(-17) }
+
+    /// compute_float::<f32>(q = -5, w): a non-error result IS the round-to-nearest-even of w * 10^q, every w < 2^16
+    /// (q = -17 and 10 are the ends of the round-to-even window of f32, 11 is just outside).
+    /// @prop C01 C19
+    /// @feat default radix_format
+    /// @bound decimal exponent q = -5, mantissa w < 2^16, f32
+    /// @fn lexical-parse-float::lemire::compute_float[f32]
+    /// @fn lexical-parse-float::lemire::compute_product_approx
+    /// @timeout 1200
+    #[cfg_attr(kani, kani::unwind(20))]
+    fn lemire_f32_rne_q_m5() { lemire_f32_rne_q!(-5) }
+
+    /// compute_float::<f32>(q = 0, w): a non-error result IS the round-to-nearest-even of w * 10^q, every w < 2^16
+    /// (q = -17 and 10 are the ends of the round-to-even window of f32, 11 is just outside).
+    /// @prop C01 C19
+    /// @feat default radix_format
+    /// @bound decimal exponent q = 0, mantissa w < 2^16, f32
+    /// @fn lexical-parse-float::lemire::compute_float[f32]
+    /// @fn lexical-parse-float::lemire::compute_product_approx
+    /// @timeout 1200
+    #[cfg_attr(kani, kani::unwind(20))]
+    fn lemire_f32_rne_q_0() { lemire_f32_rne_q!(0) }
+
+    /// compute_float::<f32>(q = 5, w): a non-error result IS the round-to-nearest-even of w * 10^q, every w < 2^16
+    /// (q = -17 and 10 are the ends of the round-to-even window of f32, 11 is just outside).
+    /// @prop C01 C19
+    /// @feat default radix_format
+    /// @bound decimal exponent q = 5, mantissa w < 2^16, f32
+    /// @fn lexical-parse-float::lemire::compute_float[f32]
+    /// @fn lexical-parse-float::lemire::compute_product_approx
+    /// @timeout 1200
+    #[cfg_attr(kani, kani::unwind(20))]
+    fn lemire_f32_rne_q_5() { lemire_f32_rne_q!(5) }
+
+    /// compute_float::<f32>(q = 10, w): a non-error result IS the round-to-nearest-even of w * 10^q, every w < 2^16
+    /// (q = -17 and 10 are the ends of the round-to-even window of f32, 11 is just outside).
+    /// @prop C01 C19
+    /// @feat default radix_format
+    /// @bound decimal exponent q = 10, mantissa w < 2^16, f32
+    /// @fn lexical-parse-float::lemire::compute_float[f32]
+    /// @fn lexical-parse-float::lemire::compute_product_approx
+    /// @timeout 1200
+    #[cfg_attr(kani, kani::unwind(20))]
+    fn lemire_f32_rne_q_10() { lemire_f32_rne_q!(10) }
+
+    /// compute_float::<f32>(q = 11, w): a non-error result IS the round-to-nearest-even of w * 10^q, every w < 2^16
+    /// (q = -17 and 10 are the ends of the round-to-even window of f32, 11 is just outside).
+    /// @prop C01 C19
+    /// @feat default radix_format
+    /// @bound decimal exponent q = 11, mantissa w < 2^16, f32
+    /// @fn lexical-parse-float::lemire::compute_float[f32]
+    /// @fn lexical-parse-float::lemire::compute_product_approx
+    /// @timeout 1200
+    #[cfg_attr(kani, kani::unwind(20))]
+    fn lemire_f32_rne_q_11() { lemire_f32_rne_q!(11) }
 
     /// @tier thorough
     /// Band: for w < 2^16 and -10 <= q <= 10 a non-error compute_float::<f32> result IS the round-to-nearest-even of w * 10^q.
